@@ -28,7 +28,10 @@ RULE = (
     "1e-30..1e-8 for the complex step; scalar or one per differentiated component), all components or a sorted "
     "strict subset, no design space / a design space / a normalised design space, a constructor step that is absent, the same or different (scalar / array) from "
     "the step passed per call, serial or parallel (processes, threads); the approximation is compared entry-wise with the exact derivative within the "
-    "analytic bound of the method, and the logged evaluation points with the upper bounds.  Discipline "
+    "analytic bound of the method, and the logged evaluation points with the upper bounds.  Half of the cases differentiate "
+    "a second time with the same approximator after the upper bounds and the point were moved.  Optimal-step cases "
+    "(curved quadratics, convex and concave directions) check the steps, their symmetry under f -> -f and the accuracy "
+    "with the steps in use.  Discipline "
     "level: a polynomial discipline with 1-3 inputs and 1-2 outputs of sizes 1-3 is linearised in the three "
     "approximation modes and checked by check_jacobian (names, indices as int / list / slice / ellipsis) "
     "with an exact and with a wrong analytic Jacobian.  Non-trivial = strict subset or per-component step, at "
@@ -54,6 +57,16 @@ ASSUMPTIONS = [
     "cannot be logged",
     "check_jacobian: threshold = 2 x error bound + 1e-9 (<= 0.1), wrong entry off by 1 + |entry|",
     "discipline-level parallel approximation is not exercised (threads share the discipline state)",
+    "two-call histories: the same approximator objects (serial and parallel) differentiate a second time after the upper "
+    "bounds of the design space were moved (tightened by 25/50 %, relaxed by 50 % or kept) and the point was redrawn; "
+    "every oracle is applied to each call with the bounds of the design space at that call; in a normalised space one "
+    "component may have no lower bound (it is then not normalised and keeps physical coordinates)",
+    "optimal steps (compute_optimal_step, set_optimal_fd_step, check_jacobian(auto_set_step=True)) are exercised on "
+    "quadratics that are strictly convex or strictly concave along every axis (second differences exact for any initial "
+    "step 1e-4..5e-2) with outputs >= 0.05 in magnitude at the point where the steps are computed (the default inputs "
+    "at discipline level); the step of a component must lie within the range over the outputs of the documented "
+    "2*sqrt(eps*|f|/|f''|) (1e-3 relative slack), f and -f must get identical steps and error estimates, and the "
+    "Jacobian must stay within the bound of the scheme for the steps in use (worst end of that range at discipline level)",
 ]
 
 EPS = 2.0**-52
@@ -62,6 +75,7 @@ K_FD_SUBSET_SPACE = "differences_subset_with_design_space"
 K_BEYOND_UB = "step_beyond_upper_bound"
 K_THREADS = "parallel_threading"
 K_SUBSET_DEFAULTS = "discipline_approximation_input_subset_uses_defaults"
+K_AUTO_CACHE = "auto_step_with_cache_tolerance"
 
 
 # =========================================================================== strategies
@@ -70,7 +84,7 @@ def _lst(elem, k):
 
 
 @st.composite
-def function_specs(draw, n: int, n_out: int, trig_ok: bool = True):
+def function_specs(draw, n: int, n_out: int, trig_ok: bool = True, dense: bool = False):
     if trig_ok and draw(st.integers(0, 2)) == 0:
         outs = [
             {"a": draw(st.sampled_from([-2, -1, 1, 2, 3])), "w": draw(_lst(st.integers(-2, 2), n)), "p": draw(st.integers(-3, 3)),
@@ -86,8 +100,39 @@ def function_specs(draw, n: int, n_out: int, trig_ok: bool = True):
             for _ in range(draw(st.integers(0, 3))):
                 exps[draw(st.integers(0, n - 1))] += 1
             monos.append({"c": draw(st.sampled_from([-3, -2, -1, 1, 2, 3])), "e": exps})
+        if dense:
+            # every output depends on every input: no block of the Jacobian is identically zero
+            for j in range(n):
+                monos.append({"c": draw(st.sampled_from([-3, -2, -1, 1, 2, 3])), "e": [int(i == j) for i in range(n)]})
         outs.append(monos)
     return {"kind": "poly", "n": n, "out": outs}
+
+
+@st.composite
+def curved_specs(draw, n: int, n_out: int):
+    """Quadratic outputs a + b.x + sum_j c_j x_j^2 (+ cross terms) with every c_j != 0: each output is strictly
+    convex or strictly CONCAVE along each axis, and central second differences are exact for any step."""
+    outs = []
+    for _ in range(n_out):
+        monos = [{"c": draw(st.sampled_from([-3, -2, -1, 1, 2, 3])), "e": [0] * n}]
+        for j in range(n):
+            b = draw(st.integers(-3, 3))
+            if b:
+                monos.append({"c": b, "e": [int(i == j) for i in range(n)]})
+            monos.append({"c": draw(st.sampled_from([-3, -2, -1, 1, 2, 3])), "e": [2 * int(i == j) for i in range(n)]})
+        if n >= 2 and draw(st.booleans()):
+            i, j = draw(st.permutations(list(range(n))))[:2]
+            monos.append({"c": draw(st.sampled_from([-2, -1, 1, 2])), "e": [int(q in (i, j)) for q in range(n)]})
+        outs.append(monos)
+    return {"kind": "poly", "n": n, "out": outs}
+
+
+@st.composite
+def optimal_step_cases(draw):
+    n = draw(st.integers(1, 3))
+    n_out = draw(st.integers(1, 3))
+    return {"n": n, "f": draw(curved_specs(n, n_out)), "scalar": n_out == 1 and draw(st.booleans()), "method": draw(st.sampled_from(["fd", "fd", "cd"])),
+            "h_mant": draw(st.sampled_from([1.0, 2.0, 5.0])), "h_exp": draw(st.integers(-4, -2)), "x": draw(_lst(st.integers(-8, 8), n))}
 
 
 MODES = ["inside", "inside", "zero", "ub", "lb", "near_ub", "near_ub", "near_lb"]
@@ -115,7 +160,12 @@ def approximator_cases(draw):
         "space": draw(st.sampled_from(["none", "plain", "plain", "normalized"])),
         "split": draw(st.integers(1, 3)), "inf_ub": draw(st.integers(0, 7)),
         "parallel": draw(st.sampled_from(["no"] * 12 + ["processes"] + ["threads"] * 5)),
+        "inf_lb": draw(st.integers(0, 7)),  # normalised space: this component has no lower bound, hence is not normalised
     }
+    if draw(st.booleans()):
+        # the SAME approximator differentiates a second time after the upper bounds were moved and the point too
+        p["second"] = {"shrink": draw(_lst(st.sampled_from([-0.5, 0.0, 0.25, 0.5, 0.5]), n)),
+                       "pos": [{"mode": draw(st.sampled_from(MODES)), "t": draw(st.sampled_from([0.25, 0.5, 0.75]))} for _ in range(n)]}
     return p
 
 
@@ -135,10 +185,12 @@ def discipline_cases(draw):
     return {
         "in_names": draw(st.sampled_from([["x", "y", "z"], ["ab", "a", "b"], ["x_1", "x_10", "x"]]))[:n_in], "in_sizes": in_sizes,
         "out_names": draw(st.sampled_from([["f", "g"], ["out", "o"]]))[:n_out], "out_sizes": out_sizes,
-        "f": draw(function_specs(n, m, trig_ok=False)), "x": draw(_lst(st.integers(-8, 8), n)),
+        "f": draw(function_specs(n, m, trig_ok=False, dense=draw(st.integers(0, 3)) > 0)), "x": draw(_lst(st.integers(-8, 8), n)),
         "method": method, "h_mant": draw(st.sampled_from([1.0, 2.0, 5.0])),
         "h_exp": draw(st.integers(-30, -8)) if method == "cs" else draw(st.integers(-7, -5)),
-        "action": draw(st.sampled_from(["linearize", "check", "check", "check_wrong", "check_wrong"])),
+        "action": draw(st.sampled_from(["linearize", "check", "check", "check_wrong", "check_wrong", "auto_check", "auto_check", "auto_check_wrong", "auto_linearize"])),
+        # strictly curved quadratic used by the optimal-step actions, with its initial step
+        "fq": draw(curved_specs(n, m)), "auto_h_exp": draw(st.integers(-4, -2)),
         "via_setter": draw(st.booleans()), "default_step": draw(st.integers(0, 3)) == 0,
         "in_subset": draw(st.one_of(st.none(), _lst(st.booleans(), n_in))), "out_subset": draw(st.one_of(st.none(), _lst(st.booleans(), n_out))),
         "reverse_names": draw(st.booleans()),
@@ -254,7 +306,8 @@ def layout(p):
     lb = np.array(p["lb"])
     ub = lb + np.array(p["width"])
     inf_ub = [p["space"] == "plain" and p["inf_ub"] == j for j in range(n)]
-    lb_w, ub_w = (np.zeros(n), np.ones(n)) if normalized else (lb, ub)
+    inf_lb = np.array([normalized and p.get("inf_lb", 9) == j for j in range(n)])  # not normalised: physical coordinates
+    lb_w, ub_w = (np.where(inf_lb, lb, 0.0), np.where(inf_lb, ub, 1.0)) if normalized else (lb, ub)
     sel = list(range(n))
     if p["subset"] is not None:
         sel = [j for j in range(n) if p["subset"][j]]
@@ -271,6 +324,8 @@ def layout(p):
         h = h_of.get(j, h0)
         if inf_ub[j] and mode in ("ub", "near_ub"):
             mode = "inside"
+        if inf_lb[j] and mode in ("lb", "near_lb"):
+            mode = "inside"
         if mode == "zero" and not (lb_w[j] <= 0.0 <= ub_w[j]):
             mode = "inside"
         if p["method"] == "cs" and mode in ("near_ub", "near_lb"):
@@ -278,19 +333,25 @@ def layout(p):
         x[j] = {"inside": lb_w[j] + t * (ub_w[j] - lb_w[j]), "zero": 0.0, "ub": ub_w[j], "lb": lb_w[j],
                 "near_ub": ub_w[j] - t * h, "near_lb": lb_w[j] + t * h}[mode]
         modes.append(mode)
-    return {"lb": lb, "ub": np.where(inf_ub, np.inf, ub), "lb_w": lb_w, "ub_w": np.where(inf_ub, np.inf, ub_w), "box_hi": ub_w, "x": x, "modes": modes,
+    return {"lb": np.where(inf_lb, -np.inf, lb), "lb_chk": np.where(inf_lb, -np.inf, lb_w), "ub": np.where(inf_ub, np.inf, ub), "lb_w": lb_w, "ub_w": np.where(inf_ub, np.inf, ub_w), "box_hi": ub_w, "x": x, "modes": modes,
             "sel": sel, "steps": steps, "h0": h0, "per_component": per_component, "strict": len(sel) < n}
 
 
-def build_space(p, lay):
+def build_space(p, lay, space=None):
+    """The design space of a case; with ``space`` given, only its upper bounds are moved to those of ``lay``."""
     from gemseo.algos.design_space import DesignSpace
 
-    space = DesignSpace()
+    update = space is not None
+    space = space if update else DesignSpace()
     n, k, v = p["n"], 0, 0
     size0 = max(1, min(p["split"], n))
     while k < n:
         size = size0 if v == 0 else n - k
-        space.add_variable(["x", "yy", "z"][v], size=size, lower_bound=lay["lb"][k:k + size], upper_bound=lay["ub"][k:k + size])
+        name = ["x", "yy", "z"][v]
+        if update:
+            space.set_upper_bound(name, np.array(lay["ub"][k:k + size], dtype=float))
+        else:
+            space.add_variable(name, size=size, lower_bound=lay["lb"][k:k + size], upper_bound=lay["ub"][k:k + size])
         k += size
         v += 1
     return space
@@ -299,15 +360,12 @@ def build_space(p, lay):
 def case_approximator(p, ctx):
     lay = layout(p)
     n, method, spec = p["n"], p["method"], p["f"]
-    x, sel, steps = lay["x"], lay["sel"], lay["steps"]
+    sel, steps = lay["sel"], lay["steps"]
     with_space = p["space"] != "none"
     bounded_scheme = method in ("fd", "cd")
     prefix = sel == list(range(len(sel)))
-    near_ub = [j for j in sel if lay["modes"][j] == "near_ub"]
     ctx.cls("method_" + method, "space_" + p["space"], "parallel_" + p["parallel"],
             "strict_subset" if lay["strict"] else "all_components", "per_component_step" if lay["per_component"] else "scalar_step")
-    for j in sel:
-        ctx.cls("point_" + lay["modes"][j])
     # ---- classes excluded by open ledger entries
     if method == "cs" and lay["strict"] and not prefix and ctx.known(K_CS_SUBSET):
         return
@@ -344,57 +402,154 @@ def case_approximator(p, ctx):
         ctor_step = None
     ctx.cls("constructor_step_" + ("same" if in_constructor else ctor if ctor != "same" else "default"))
     approx = cls(func, step=ctor_step, **kwargs)
-    x_indices = sel if (lay["strict"] or p["explicit_all"]) else ()
-    x_before = x.copy()
-    with warnings.catch_warnings():
-        warnings.simplefilter("ignore", RuntimeWarning)
-        grad = approx.f_gradient(x, None if in_constructor else step_arg, x_indices)
-    ctx.check(np.array_equal(x, x_before), "input_unmodified", "f_gradient modified the input vector")
-    n_out = len(spec["out"])
-    expected_shape = (len(sel),) if scalar else (n_out, len(sel))
-    ctx.check(isinstance(grad, np.ndarray) and grad.shape == expected_shape, "shape", f"gradient has shape {np.shape(grad)}, expected {expected_shape}")
-    got = grad.reshape(n_out, len(sel))
-
-    # ---- accuracy
-    radius = np.maximum(np.maximum(np.abs(lay["lb_w"]), np.abs(lay["box_hi"])), np.abs(x)) + (float(np.max(steps)) if bounded_scheme else 0.0)
-    big, m1, m2, m3 = f_bounds(spec, radius)
-    exact = f_jac(spec, x)
-    for c, j in enumerate(sel):
-        # centred scheme on a bound or within one step of it: a one-sided (first-order) quotient is legitimate
-        on_bound = with_space and method == "cd" and (x[j] + steps[c] > lay["ub_w"][j] or x[j] - steps[c] < lay["lb_w"][j])
-        for k in range(n_out):
-            bound = error_bound(method, steps[c], x[j], on_bound, big[k], m1[k, j], m2[k, j], m3[k, j], radius[j])
-            err = abs(got[k, c] - exact[k, j])
-            if err > 0 and np.isfinite(err):
-                key = "max_error_to_bound_ratio_" + method
-                ctx.extra[key] = max(ctx.extra.get(key, 0.0), float(err / bound))
-            ctx.check(bool(np.isfinite(got[k, c])) and err <= bound, "accuracy",
-                      f"{method}: d f[{k}]/d x[{j}] = {got[k, c]!r}, exact {exact[k, j]!r}: error {err:.3e} exceeds the bound {bound:.3e} of the scheme (step {steps[c]:g})",
-                      point=x, indices=sel)
-    # ---- bound safety
-    if with_space and calls:
-        over = [(c, j) for c in calls for j in range(n) if np.real(c[j]) > lay["ub_w"][j]]
-        under = [1 for c in calls for j in range(n) if np.real(c[j]) < lay["lb_w"][j]]
-        if under:
-            ctx.cls("evaluation_below_lower_bound")
-        if bounded_scheme and near_ub:
-            ctx.cls("selected_component_within_one_step_of_ub")
-        if not (bounded_scheme and near_ub and ctx.known(K_BEYOND_UB)):
-            ctx.check(not over, "bound_safety",
-                      f"{method}: the function was evaluated at {over[0][0]!r} beyond the upper bound {lay['ub_w']!r} (component {over[0][1]})" if over else "", point=x)
-    # ---- parallel == serial
+    par = None
     if p["parallel"] != "no":
         par = cls(func, step=ctor_step, parallel=True, n_processes=2, use_threading=p["parallel"] == "threads", **kwargs)
+    x_indices = sel if (lay["strict"] or p["explicit_all"]) else ()
+    n_out = len(spec["out"])
+
+    def differentiate(lay, call):
+        """One call of f_gradient on the (same) approximators, held to the bounds the design space has NOW."""
+        x = lay["x"]
+        near_ub = [j for j in sel if lay["modes"][j] == "near_ub"]
+        for j in sel:
+            ctx.cls("point_" + lay["modes"][j])
+        del calls[:]
+        x_before = x.copy()
         with warnings.catch_warnings():
             warnings.simplefilter("ignore", RuntimeWarning)
-            grad_par = par.f_gradient(x, None if in_constructor else step_arg, x_indices)
-        ctx.check(isinstance(grad_par, np.ndarray) and grad_par.shape == grad.shape and np.array_equal(grad_par, grad), "parallel_equals_serial",
-                  f"{method}: the parallel gradient {grad_par!r} differs from the serial one {grad!r}")
-    special_point = any(lay["modes"][j] in ("zero", "ub", "lb", "near_ub", "near_lb") for j in sel)
+            grad = approx.f_gradient(x, None if in_constructor else step_arg, x_indices)
+        ctx.check(np.array_equal(x, x_before), "input_unmodified", "f_gradient modified the input vector")
+        expected_shape = (len(sel),) if scalar else (n_out, len(sel))
+        ctx.check(isinstance(grad, np.ndarray) and grad.shape == expected_shape, "shape", f"{call}: gradient has shape {np.shape(grad)}, expected {expected_shape}")
+        got = grad.reshape(n_out, len(sel))
+
+        # ---- accuracy
+        radius = np.maximum(np.maximum(np.abs(lay["lb_w"]), np.abs(lay["box_hi"])), np.abs(x)) + (float(np.max(steps)) if bounded_scheme else 0.0)
+        big, m1, m2, m3 = f_bounds(spec, radius)
+        exact = f_jac(spec, x)
+        for c, j in enumerate(sel):
+            # centred scheme on a bound or within one step of it: a one-sided (first-order) quotient is legitimate
+            on_bound = with_space and method == "cd" and (x[j] + steps[c] > lay["ub_w"][j] or x[j] - steps[c] < lay["lb_chk"][j])
+            for k in range(n_out):
+                bound = error_bound(method, steps[c], x[j], on_bound, big[k], m1[k, j], m2[k, j], m3[k, j], radius[j])
+                err = abs(got[k, c] - exact[k, j])
+                if err > 0 and np.isfinite(err):
+                    key = "max_error_to_bound_ratio_" + method
+                    ctx.extra[key] = max(ctx.extra.get(key, 0.0), float(err / bound))
+                ctx.check(bool(np.isfinite(got[k, c])) and err <= bound, "accuracy",
+                          f"{method}, {call}: d f[{k}]/d x[{j}] = {got[k, c]!r}, exact {exact[k, j]!r}: error {err:.3e} exceeds the bound {bound:.3e} of the scheme (step {steps[c]:g})",
+                          point=x, indices=sel)
+        # ---- bound safety
+        if with_space and calls:
+            over = [(c, j) for c in calls for j in range(n) if np.real(c[j]) > lay["ub_w"][j]]
+            under = [1 for c in calls for j in range(n) if np.real(c[j]) < lay["lb_chk"][j]]
+            if under:
+                ctx.cls("evaluation_below_lower_bound")
+            if bounded_scheme and near_ub:
+                ctx.cls("selected_component_within_one_step_of_ub")
+            if not (bounded_scheme and near_ub and ctx.known(K_BEYOND_UB)):
+                ctx.check(not over, "bound_safety",
+                          f"{method}, {call}: the function was evaluated at {over[0][0]!r} beyond the upper bound {lay['ub_w']!r} (component {over[0][1]})" if over else "", point=x)
+        # ---- parallel == serial
+        if par is not None:
+            with warnings.catch_warnings():
+                warnings.simplefilter("ignore", RuntimeWarning)
+                grad_par = par.f_gradient(x, None if in_constructor else step_arg, x_indices)
+            ctx.check(isinstance(grad_par, np.ndarray) and grad_par.shape == grad.shape and np.array_equal(grad_par, grad), "parallel_equals_serial",
+                      f"{method}, {call}: the parallel gradient {grad_par!r} differs from the serial one {grad!r}")
+        return any(lay["modes"][j] in ("zero", "ub", "lb", "near_ub", "near_lb") for j in sel)
+
+    special_point = differentiate(lay, "first call")
+    if p.get("second") is not None:
+        # the same approximators are used again after the upper bounds of the design space and the point were moved
+        widths = [w * (1.0 - sh) for w, sh in zip(p["width"], p["second"]["shrink"])]
+        lay2 = layout(dict(p, width=widths, pos=p["second"]["pos"]))
+        if with_space:
+            build_space(p, lay2, space)
+            ctx.cls("second_call_after_bounds_moved")
+        else:
+            ctx.cls("second_call_no_space")
+        special_point = differentiate(lay2, "second call after the upper bounds were moved") or special_point
     if (lay["strict"] or lay["per_component"]) and special_point:
         ctx.nontriv(("approximator", p))
         ctx.cls("nontrivial")
     ctx.sample({"oracle": "approximator", "case": p})
+
+
+# =========================================================================== oracle: optimal step
+def curvatures(spec):
+    """Exact second axis derivatives (n_out, n) of a curved quadratic."""
+    n = spec["n"]
+    out = np.zeros((len(spec["out"]), n))
+    for k, monos in enumerate(spec["out"]):
+        for mono in monos:
+            for j in range(n):
+                if mono["e"][j] == 2:
+                    out[k, j] += 2.0 * mono["c"]
+    return out
+
+
+def documented_optimal_steps(spec, point):
+    """Per input component, the interval of 2*sqrt(eps*|f_k|/|f_k''|) over the outputs (truncation error |f''|h/2
+    equal to cancellation error 2*eps*|f|/h, error_estimators.compute_best_step); None when an output is too close to 0."""
+    values = np.abs(np.real(f_eval(spec, point)))
+    if np.any(values < 0.05):
+        return None
+    cand = 2.0 * np.sqrt(EPS * values[:, None] / np.abs(curvatures(spec)))
+    return cand.min(axis=0) * (1 - 1e-3), cand.max(axis=0) * (1 + 1e-3)
+
+
+def bound_over_interval(method, lo, hi, x_j, big_k, m1, m2, m3, radius_j):
+    """The error bound is convex in the step: its maximum over [lo, hi] is at an end."""
+    return max(error_bound(method, lo, x_j, False, big_k, m1, m2, m3, radius_j), error_bound(method, hi, x_j, False, big_k, m1, m2, m3, radius_j))
+
+
+def case_optimal_step(p, ctx):
+    n, spec, method, scalar = p["n"], p["f"], p["method"], p["scalar"]
+    x = np.array(p["x"], dtype=float) / 4.0
+    h_init = p["h_mant"] * 10.0 ** p["h_exp"]
+    interval = documented_optimal_steps(spec, x)
+    if interval is None:
+        ctx.cls("optimal_step_skipped_output_near_zero")
+        return
+    lo, hi = interval
+    cls = approximator_class(method)
+
+    def func(v, sign=1.0):
+        out = sign * f_eval(spec, v)
+        return out[0] if scalar else out
+
+    approx = cls(func, step=h_init)
+    steps, errors = approx.compute_optimal_step(x)
+    mirror = cls(lambda v: func(v, -1.0), step=h_init)
+    steps_m, errors_m = mirror.compute_optimal_step(x)
+    steps, errors = np.asarray(steps, dtype=float), np.asarray(errors, dtype=float)
+    ctx.check(steps.shape == (n,) and errors.shape == (n,), "optimal_step", f"optimal steps have shape {steps.shape}, errors {errors.shape}, expected ({n},)")
+    ctx.check(np.array_equal(steps, np.asarray(steps_m)) and np.array_equal(errors, np.asarray(errors_m)), "optimal_step_symmetry",
+              f"{method}: f gets the optimal steps {steps!r} (errors {errors!r}), -f gets {np.asarray(steps_m)!r} (errors {np.asarray(errors_m)!r})", point=x)
+    ctx.check(bool(np.all(np.isfinite(steps)) and np.all(steps >= lo) and np.all(steps <= hi)), "optimal_step_formula",
+              f"{method}: optimal steps {steps!r} outside [{lo!r}, {hi!r}] = range over the outputs of 2*sqrt(eps*|f|/|f''|) (initial step {h_init:g})", point=x)
+    # the Jacobian with the steps actually in use stays within the bound of the scheme for these steps
+    used = np.asarray(approx.step, dtype=float) * np.ones(n)
+    grad = approx.f_gradient(x)
+    n_out = len(spec["out"])
+    ctx.check(isinstance(grad, np.ndarray) and grad.size == n_out * n, "shape", f"gradient has shape {np.shape(grad)}")
+    got = grad.reshape(n_out, n)
+    radius = np.abs(x) + float(np.max(used))
+    big, m1, m2, m3 = f_bounds(spec, radius)
+    exact = f_jac(spec, x)
+    for j in range(n):
+        for k in range(n_out):
+            bound = error_bound(method, used[j], x[j], False, big[k], m1[k, j], m2[k, j], m3[k, j], radius[j])
+            err = abs(got[k, j] - exact[k, j])
+            ctx.check(bool(np.isfinite(got[k, j])) and err <= bound, "accuracy_after_optimal_step",
+                      f"{method}: d f[{k}]/d x[{j}] = {got[k, j]!r}, exact {exact[k, j]!r}: error {err:.3e} exceeds the bound {bound:.3e} for the step in use {used[j]:g}", point=x)
+    curv = curvatures(spec)
+    ctx.cls("optimal_step_" + method, "optimal_step_with_concave_direction" if np.any(curv < 0) else "optimal_step_all_convex")
+    if np.any(curv < 0) and np.any(curv > 0):
+        ctx.nontriv(("optimal", p))
+    ctx.sample({"oracle": "optimal_step", "case": p})
 
 
 # =========================================================================== oracle: discipline level
@@ -466,7 +621,70 @@ def resolve_indices(code, size):
     return slice(a, b), list(range(size))[a:b]
 
 
+def case_discipline_auto(p, ctx):
+    """check_jacobian(auto_set_step=True) / set_optimal_fd_step + linearize: the optimal steps are computed at the
+    DEFAULT inputs (documented), the Jacobian is requested at other input data."""
+    spec, method = p["fq"], ("cd" if p["method"] == "cd" else "fd")
+    in_names, in_sizes, out_names, out_sizes = p["in_names"], p["in_sizes"], p["out_names"], p["out_sizes"]
+    n, m = sum(in_sizes), sum(out_sizes)
+    mode_name = {"fd": "finite_differences", "cd": "centered_differences"}[method]
+    x = np.array(p["x"], dtype=float) / 4.0
+    at_defaults = p["defaults"] == "same_no_input_data" or (p["defaults"] == "same" and p["via_setter"])
+    x_def = x.copy() if at_defaults else x + 1.0
+    h_init = p["h_mant"] * 10.0 ** p["auto_h_exp"]
+    ctx.cls("disc_" + p["action"], "disc_auto_" + method, "disc_auto_at_defaults" if at_defaults else "disc_auto_away_from_defaults")
+    interval = documented_optimal_steps(spec, x_def)
+    if interval is None:
+        ctx.cls("disc_auto_skipped_output_near_zero")
+        return
+    if p.get("cache", "default") in ("SimpleCache", "MemoryFullCache") and p.get("cache_tol", 0.0) > 0:
+        ctx.cls("disc_auto_with_cache_tolerance")
+        if ctx.known(K_AUTO_CACHE):
+            return
+    lo, hi = interval
+    offsets_in = dict(zip(in_names, np.cumsum([0, *in_sizes[:-1]])))
+    offsets_out = dict(zip(out_names, np.cumsum([0, *out_sizes[:-1]])))
+    as_data = lambda v: {name: v[offsets_in[name]:offsets_in[name] + size].copy() for name, size in zip(in_names, in_sizes)}  # noqa: E731
+    exact = f_jac(spec, x)
+    radius = np.abs(x) + float(np.max(hi))
+    big, m1, m2, m3 = f_bounds(spec, radius)
+    bound = np.array([[bound_over_interval(method, lo[j], hi[j], x[j], big[k], m1[k, j], m2[k, j], m3[k, j], radius[j]) for j in range(n)] for k in range(m)])
+    wrong = (p["wrong"][0] % m, p["wrong"][1] % n) if p["action"] == "auto_check_wrong" else None
+    disc = make_discipline(dict(p, f=spec), wrong)
+    disc.io.input_grammar.defaults.update(as_data(x_def))
+    input_data = {} if p["defaults"] == "same_no_input_data" else as_data(x)
+    if p["action"] == "auto_linearize":
+        disc.set_jacobian_approximation(mode_name, h_init)
+        disc.set_optimal_fd_step(compute_all_jacobians=True)
+        jac = disc.linearize(input_data, compute_all_jacobians=True)
+        for oname, osize in zip(out_names, out_sizes):
+            for iname, isize in zip(in_names, in_sizes):
+                block = np.asarray(jac[oname][iname])
+                r, c = offsets_out[oname], offsets_in[iname]
+                ctx.check(block.shape == (osize, isize), "discipline_optimal_step", f"d{oname}/d{iname} has shape {block.shape}, expected {(osize, isize)}")
+                ref, tol = exact[r:r + osize, c:c + isize], bound[r:r + osize, c:c + isize]
+                ctx.check(bool(np.all(np.isfinite(block)) and np.all(np.abs(block - ref) <= tol)), "discipline_optimal_step",
+                          f"{mode_name} after set_optimal_fd_step (initial step {h_init:g}): d{oname}/d{iname} = {block!r}, exact {ref!r}: error exceeds the bound {tol!r} "
+                          f"for optimal steps in [{lo!r}, {hi!r}]")
+    else:
+        threshold = 2 * float(np.max(bound)) + 1e-9
+        if threshold > 0.1:
+            ctx.cls("disc_check_skipped_loose_bound")
+            return
+        verdict = disc.check_jacobian(input_data, derr_approx=mode_name, step=h_init, threshold=threshold, auto_set_step=True)
+        expected = wrong is None
+        ctx.check(bool(verdict) == expected, "check_jacobian_auto_step",
+                  f"check_jacobian({mode_name}, step={h_init:g}, auto_set_step=True, threshold={threshold:.2e}) at inputs "
+                  f"{'equal to' if at_defaults else 'different from'} the defaults returned {verdict}, expected {expected}"
+                  + (f" (wrong entry at output row {wrong[0]}, input column {wrong[1]})" if wrong else " (exact Jacobian)"))
+    if not at_defaults and np.any(curvatures(spec) < 0):
+        ctx.nontriv(("disc_auto", p))
+    ctx.sample({"oracle": "discipline", "case": p})
+
+
 def case_discipline(p, ctx):
+    if p["action"].startswith("auto_"):
+        return case_discipline_auto(p, ctx)
     spec, method = p["f"], p["method"]
     in_names, in_sizes, out_names, out_sizes = p["in_names"], p["in_sizes"], p["out_names"], p["out_sizes"]
     n, m = sum(in_sizes), sum(out_sizes)
@@ -600,9 +818,10 @@ def case_discipline(p, ctx):
     ctx.sample({"oracle": "discipline", "case": p})
 
 
-ORACLES = {"approximator": case_approximator, "discipline": case_discipline}
+ORACLES = {"approximator": case_approximator, "optimal_step": case_optimal_step, "discipline": case_discipline}
 
 
 def run(ctx):
     ctx.drive("approximator", approximator_cases(), case_approximator, quick=1200, thorough=8000)
-    ctx.drive("discipline", discipline_cases(), case_discipline, quick=400, thorough=2500)
+    ctx.drive("optimal_step", optimal_step_cases(), case_optimal_step, quick=200, thorough=1500)
+    ctx.drive("discipline", discipline_cases(), case_discipline, quick=550, thorough=3000)
